@@ -30,6 +30,9 @@ var c19Programs = []string{
 	"def b {\n  x = 1001/1002\n  y = 2\n}\n",
 	"def b {\n  x = 1001/1002\n  y = 2\n  z = 3\n}\nprint \"f\"\n",
 	"print \"a\"\n\n\nprint 1001 / 1002\n\n\n\nprint \"z\"\n",
+	// long strings on the stack, in fields and in the binding (256/257 bytes, 4800 bytes)
+	"var s = \"abcdefgh\" * 32\nprint s\ndef t {\n f = s\n g = s + \"!\"\n h = g + g\n}\nbind t -> struct\nprint s + \"?\"\n",
+	"print \"0123456789abcdef\" * 300\ndef t {\n f = \"0123456789abcdef\" * 300\n}\n",
 }
 
 // introspection lines: stack dumps, instruction lines, statistics, header
@@ -115,10 +118,46 @@ func C19_Observe() {
 		// thorough: also the boolean-heavy programs of C10
 		progs = append(append([]string(nil), c19Programs...), c10Programs...)
 	}
-	src := progs[verif.Choice("prog", len(progs))]
+	c19Observe(progs[verif.Choice("prog", len(progs))], true)
+}
+
+// C19_Limits: CONCRETE INSTANCES - the same observations on programs that end
+// at an implementation limit (operand stack, block stack): the instruction
+// that does not run is not traced, the error is the same with every option.
+func C19_Limits() {
+	var src string
+	switch verif.Choice("prog", 4) {
+	case 0: // 1023 variables, then an expression that needs two more slots
+		for i := 0; i < 1023; i++ {
+			src += "var v" + itoa(i) + " = " + itoa(i) + "\n"
+		}
+		src += "print v0 + v1\n"
+	case 1: // 1024 variables, then a variable read
+		for i := 0; i < 1024; i++ {
+			src += "var v" + itoa(i) + "\n"
+		}
+		src += "print v0\n"
+	case 2: // 17 nested blocks
+		for i := 0; i < 17; i++ {
+			src += "def b" + itoa(i) + " {\n"
+		}
+		src += "f = 1\n"
+		for i := 0; i < 17; i++ {
+			src += "}\n"
+		}
+	case 3: // 1022 variables and an expression that just fits
+		for i := 0; i < 1022; i++ {
+			src += "var v" + itoa(i) + "\n"
+		}
+		src += "print 1 + 2\nprint \"end\"\n"
+	}
+	c19Observe(src, false)
+}
+
+func c19Observe(src string, placeholders bool) {
 	values := map[string]any{}
 	for _, text := range []string{"1001", "1002", "1003"} {
-		if containsStr(src, text) {
+		if placeholders && containsStr(src, text) {
 			values[text] = verif.Int("k" + text)
 		}
 	}
